@@ -187,7 +187,7 @@ def r4(ctx):
     kws = args[2] if len(args) > 2 else rt.kwarg("kwds")
     if not isinstance(pos, (Lst, Tup)):
         raise AnalysisError(f"positional task arguments are not a literal list: {pos}")
-    tparams = target.params
+    tparams = target.own_params
     bound = dict(zip(tparams, pos.elems))
     sp = setup.params
     want = {
